@@ -182,6 +182,30 @@ def generate(lean_dir: str):
         raise P.Untranslatable("_normalize_password: one [:n] slice expected")
     out.append(f"def UTF8_PASSWORD_MAX : Nat := {np_[0]}\n\n")
 
+    # _saslprep.py: the tuple of prohibited-output tables, the unassigned table, the mapping target
+    sp = P.parse_file("pdfminer/_saslprep.py")
+    proh = P.find_assign(sp, "_PROHIBITED")
+    if not (isinstance(proh, ast.Tuple) and all(isinstance(e, ast.Attribute) and isinstance(e.value, ast.Name)
+                                                 and e.value.id == "stringprep" and e.attr.startswith("in_table_")
+                                                 for e in proh.elts)):
+        raise P.Untranslatable("_PROHIBITED is not a tuple of stringprep.in_table_* functions")
+    names = [e.attr[len("in_table_"):] for e in proh.elts]
+    out.append("def SASL_PROHIBITED_TABLES : List String := [" + ", ".join('"%s"' % n for n in names) + "]\n\n")
+    fn = P.find_function(sp, "saslprep")
+    defaults = fn.args.defaults
+    if not (len(defaults) == 1 and isinstance(defaults[0], ast.Constant) and defaults[0].value is True):
+        raise P.Untranslatable("saslprep: prohibit_unassigned_code_points must default to True")
+    extra = [n.attr[len("in_table_"):] for n in ast.walk(fn)
+             if isinstance(n, ast.Attribute) and isinstance(n.value, ast.Name) and n.value.id == "stringprep"
+             and n.attr.startswith("in_table_")]
+    out.append("/-- every `stringprep.in_table_*` the function body mentions, as found by ast.walk -/\n")
+    out.append("def SASL_BODY_TABLES : List String := [" + ", ".join('"%s"' % n for n in extra) + "]\n\n")
+    spaces = [n.value for n in ast.walk(fn) if isinstance(n, ast.Constant) and isinstance(n.value, str)
+              and len(n.value) == 1]
+    if len(spaces) != 1:
+        raise P.Untranslatable("saslprep: one single-character replacement constant expected")
+    out.append(f"def SASL_SPACE : Nat := {ord(spaces[0])}\n\n")
+
     out.append("end PdfVerif.Gen.Crypt\n")
     path = os.path.join(lean_dir, "PdfVerif", "Gen", "Crypt.lean")
     P.write_if_changed(path, "".join(out))
